@@ -64,6 +64,11 @@ pub fn c09_directed() -> Vec<(&'static str, &'static str)> {
         ("undeclared-after-stop", "print(\"eerst\"); stel i = 0; zolang i < 3 { i += 1; als i == 2 { stop; onbekend }; volgende; print(ook_onbekend) }; i"),
         ("undeclared-after-antwoord-in-block", "functie f() { { antwoord 1; stel x = onbekend } }; print(\"eerst\"); f()"),
         ("use-before-declaration", "print(\"eerst\"); x; stel x = 1"),
+        ("use-before-function-of-same-name", "stel f = \"buiten\"; { print(f); functie f() { \"binnen\" }; print(f()) }; print(f)"),
+        ("use-before-function-of-same-name-in-loop", "stel f = \"buiten\"; stel i = 0; zolang i < 2 { i += 1; print(f); functie f() { \"binnen\" }; print(f()) }; f"),
+        ("use-before-function-of-same-name-in-function", "stel g = 5; functie buiten() { stel r = g + 1; functie g() { 100 }; [r, g()] }; [buiten(), g]"),
+        ("use-before-function-declaration-undeclared", "print(\"eerst\"); { g; functie g() { 1 } }"),
+        ("call-before-function-declaration-undeclared", "print(\"eerst\"); functie a() { b() }; a(); functie b() { 1 }"),
         ("declared-in-sibling-block", "{ stel a = 1 }; { a }"),
         ("loop-body-scope", "stel i = 0; zolang i < 2 { i += 1; stel t = i }; t"),
         ("if-branch-scope", "als ja { stel t = 1 }; t"),
@@ -76,6 +81,32 @@ pub fn c09_directed() -> Vec<(&'static str, &'static str)> {
 }
 
 pub fn c10_directed() -> Vec<(&'static str, &'static str)> {
+    static CACHE: std::sync::OnceLock<Vec<(&'static str, &'static str)>> = std::sync::OnceLock::new();
+    CACHE.get_or_init(c10_directed_build).clone()
+}
+
+fn c10_directed_build() -> Vec<(&'static str, &'static str)> {
+    let mut v = c10_directed_fixed();
+    // many variables: moved into a function (T1) the last of N globals becomes local slot N - 1, and every operator with a
+    // literal is then compiled to its specialised instruction with that slot number as operand
+    for n in [2usize, 63, 64, 65, 127, 128, 129, 254, 255, 256, 257, 258, 300, 1000] {
+        let decls: String = (0..n).map(|k| format!("stel g{} = {}; ", k, k)).collect();
+        let (l, m, p) = (n - 1, n / 2, n.saturating_sub(2));
+        let text = format!(
+            "{}[g{l} + 1, 1 + g{l}, g{l} - 1, 7 - g{l}, g{l} * 2, g{l} / 2, g{l} % 7, g{l} < 5, g{l} <= 5, g{l} > 5, g{l} >= 5, g{l} == {l}, g{l} != 3, g{m} + 1, g0 + 1, g{p} * 3, 3 > g{p}]",
+            decls,
+            l = l,
+            m = m,
+            p = p
+        );
+        let name: &'static str = Box::leak(format!("many-variables-ops-{}", n).into_boxed_str());
+        let text: &'static str = Box::leak(text.into_boxed_str());
+        v.push((name, text));
+    }
+    v
+}
+
+fn c10_directed_fixed() -> Vec<(&'static str, &'static str)> {
     vec![
         ("sub-literal-left", "stel n = 3; [10 - n, n - 10, 10 / n, n / 10, 10 % n, n % 10]"),
         ("cmp-literal-left", "stel n = 3; [10 < n, 10 <= n, 10 > n, 10 >= n, 10 == n, 10 != n, n < 10, 3 <= n, 3 >= n]"),
